@@ -157,8 +157,7 @@ def run(rep: Report, tier: str) -> None:
     arith = [n for n in names if len(n.args) == 2 and isinstance(n.args[1], ast.BinOp)]
     for n in arith:
         rep.violation(rc, JP, gy.qualname, f"previous sheet named by arithmetic: {short(n, 80)}", f"{short(n, 80)}: the previous year's sheet is named by arithmetic on the current year; when a year has no transactions (or years are not consecutive) that sheet does not exist — the opening balance must refer to the most recent earlier year that has a sheet", loc(n))
-    ok = len(prev_names) == 1 and pv is not None and unparse(prev_names[0]) == f"self.get_tax_sheet_name(asset, {pv})"
-    rep.check(ok or bool(arith), rc, JP, gy.qualname, "previous sheet name = get_tax_sheet_name(asset, <carried previous year>)", f"the previous sheet is named by {[short(n, 80) for n in prev_names]}; expected self.get_tax_sheet_name(asset, {pv}) — the same (translated) name builder that named the sheet when it was created", loc(gy.node))
+    # (the opening-balance cells themselves are decided on the writer's trace, see _writer_trace)
     # every cross-sheet reference in a formula goes through a name variable produced by the name builder
     for node in ast.walk(gy.node):
         if isinstance(node, ast.JoinedStr) and any(isinstance(v, ast.Constant) and "='" in str(v.value) for v in node.values):
@@ -166,9 +165,6 @@ def run(rep: Report, tier: str) -> None:
             first = unparse(fv[0].value) if fv else ""
             ok = first.startswith("self.get_tax_sheet_name(") or first in name_locals or first == "previous_year_sheet_name" and any(isinstance(a, (ast.Assign, ast.AnnAssign)) and unparse(a.target if isinstance(a, ast.AnnAssign) else a.targets[0]) == "previous_year_sheet_name" and unparse(a.value).startswith("self.get_tax_sheet_name(") for a in ast.walk(gy.node))
             rep.check(ok, rc, JP, gy.qualname, f"cross-sheet formula names its sheet through get_tax_sheet_name: {short(node, 60)}", f"{short(node, 100)} names the referenced sheet by {first or 'a literal'}, not by self.get_tax_sheet_name(...): with a translated sheet-name format (e.g. -g kl) the reference points at a sheet that does not exist", loc(node))
-    guard = [n for n in ast.walk(gy.node) if isinstance(n, ast.If) and "previous_year_sheet_name" in unparse(n.body[0] if n.body else n)]
-    ok = len(guard) == 1 and "previous_year_row_offset != 0" in unparse(guard[0].test)
-    rep.check(ok, rc, JP, gy.qualname, "no reference (opening balance 0) when there is no previous sheet", f"the previous-sheet reference is built under '{short(guard[0].test, 80) if guard else None}'", loc(gy.node))
     rets = [n for n in ast.walk(gy.node) if isinstance(n, ast.Return) and n.value is not None]
     rep.check(len(rets) == 1 and unparse(rets[0].value) == "row_index + 9", rc, JP, gy.qualname, "the returned offset is this sheet's closing-balance row (row_index + 9)", f"the per-year writer returns {unparse(rets[0].value) if rets else None}", loc(gy.node))
 
@@ -182,15 +178,15 @@ def run(rep: Report, tier: str) -> None:
     rep.check("self.__year_row_offset" in inst and "self.__number_of_summaries" in inst, rd, JP, "Generator.__init__", "summary bookkeeping is per instance (set in __init__)", f"__init__ sets {inst}: class-level bookkeeping would leak across runs", loc(gen.node))
     cls_level = [n for n in gen.class_attrs if "year_row_offset" in n or "number_of_summaries" in n]
     rep.check(not cls_level, rd, JP, "Generator", "no class-level summary state", f"class-level attributes {cls_level}", loc(gen.node))
-    _summary_trace(rep, rd, norm, gy, row_loop)
+    _writer_trace(rep, rd, rc, norm, gy, row_loop, pv, bool(arith))
     g = gen.methods["generate"]
     lp = [n for n in g.node.body if isinstance(n, ast.For) and "asset_to_computed_data.items()" in unparse(n.iter)]
     ok = len(lp) == 1 and any(isinstance(c, ast.Call) and unparse(c) == "self.__generate_asset(computed_data, output_file)" for c in ast.walk(lp[0]))
     rep.check(ok, rd, JP, g.qualname, "generate() writes every asset", "generate() no longer calls __generate_asset(computed_data, output_file) for every asset", loc(g.node))
 
 
-def _summary_trace(rep: Report, rd, norm, gy, row_loop: ast.For) -> None:
-    """C20.d on the *trace* of the per-year writer rather than on its text: the statements before and after the row loop are walked symbolically (locals
+def _writer_trace(rep: Report, rd, rc, norm, gy, row_loop: ast.For, pv: Optional[str], arith: bool) -> None:
+    """C20.d and the opening-balance cells of C20.c on the *trace* of the per-year writer rather than on its text: the statements before and after the row loop are walked symbolically (locals
     substituted, slot reads of the offset dictionary resolved, the name builders entered), so a row number or a sheet name kept in a local, an offset
     advanced by `= row + 1` instead of `+= 1`, or the first-seen test on a saved `setdefault` result are the same trace."""
     from ..norm import ANY
@@ -227,7 +223,45 @@ def _summary_trace(rep: Report, rd, norm, gy, row_loop: ast.For) -> None:
         return isinstance(t, tuple) and t[:3] == ("old", sheets, sname)
 
     seen = {True: 0, False: 0}
+    opening = {True: 0, False: 0}
+    prev = ("sym", pv or "previous_year")
+    poff = ("sym", "previous_year_row_offset")
+    prev_name = se.eval(ast.parse(f"self.get_tax_sheet_name(asset, {prev[1]})", mode="eval").body, probe)[0]
+    has_prev_atoms = [("cmp", "is not", prev, ("const", None)), ("cmp", "!=", poff, ("const", 0))]
+    no_prev_atoms = [("cmp", "is", prev, ("const", None)), ("cmp", "==", poff, ("const", 0))]
+
+    def settled(t):  # a formula text that starts with a literal is a non-empty string: neither None nor falsy
+        def text(x) -> bool:
+            return isinstance(x, tuple) and len(x) == 2 and x[0] == "fstr" and bool(x[1]) and isinstance(x[1][0], str) and bool(x[1][0])
+
+        while isinstance(t, tuple) and len(t) == 4 and t[0] == "ite":
+            c = t[1]
+            if c[0] == "truthy" and text(c[1]):
+                t = t[2]
+            elif c[0] == "cmp" and c[1] in ("is", "is not", "==", "!=") and ((text(c[2]) and c[3] == ("const", None)) or (text(c[3]) and c[2] == ("const", None))):
+                t = t[3] if c[1] in ("is", "==") else t[2]
+            else:
+                break
+        return t
+
     for p in paths:
+        own_fills = [dict(e[1][2]) for e in p.calls() if e[1][0] == "call" and e[1][1].endswith("._fill_cell")]
+        cell = {k: [settled(f.get("value")) for f in own_fills if f.get("column_index") == ("const", 4) and f.get("row_index") == mk_add([("const", k), row])] for k in (8, 9)}
+        conds = p.conds()
+        flat_or = [a for c in conds for a in (c[1] if c[0] == "or" else [c])]
+        with_prev = any(a in conds for a in has_prev_atoms)
+        without_prev = any(a in flat_or for a in no_prev_atoms)
+        if not arith:
+            if with_prev and not without_prev:
+                opening[True] += 1
+                want8 = ("fstr", ("='", prev_name, "'.I", poff))
+                want9 = ("fstr", ("='", prev_name, "'.I", mk_add([("const", 1), poff])))
+                rep.check(cell[8] == [want8] and cell[9] == [want9], rc, JP, gy.qualname, "with a previous sheet: the opening balances refer to get_tax_sheet_name(asset, <carried previous year>) at the carried offset and the row below", f"with a previous year the opening-balance cells (E<row+8>, E<row+9>) receive {[show(v)[:110] for v in cell[8]]} and {[show(v)[:110] for v in cell[9]]}; expected ='<sheet of the previous iteration>'.I<offset> and .I<offset+1> - through the same (translated) name builder that named the sheet when it was created", loc(gy.node))
+            elif without_prev and not with_prev:
+                opening[False] += 1
+                rep.check(cell[8] == [("const", 0)] and cell[9] == [("const", 0)], rc, JP, gy.qualname, "no reference (opening balance 0) when there is no previous sheet", f"without a previous year the opening-balance cells receive {[show(v)[:110] for v in cell[8]]} and {[show(v)[:110] for v in cell[9]]}; expected 0", loc(gy.node))
+            else:
+                rep.violation(rc, JP, gy.qualname, "the opening balance is decided on 'there is a previous sheet' (previous year given / previous offset non-zero)", f"a path through the writer fills the opening-balance cells under {[show(c)[:90] for c in conds]}: neither 'a previous year exists' nor 'none exists' is established on it", loc(gy.node))
         first = [c for c in p.conds() if c[0] == "cmp" and c[1] in ("==", "!=") and {c[3], c[2]} & {("const", 7)} and (is_off(c[2]) or is_off(c[3]))]
         default_ok = all(v == ("const", 7) for k, v in p.defaults.items() if k[0] == tkey(offsets))
         if len(first) != 1 or not default_ok:
@@ -256,6 +290,8 @@ def _summary_trace(rep: Report, rd, norm, gy, row_loop: ast.For) -> None:
         got = {c: cols.get(c) for c in want}
         ok = all(got[c] == ("fstr", ("='", own, f"'.{col}", mk_add([("const", k), row]))) for c, (col, k) in want.items())
         rep.check(ok, rd, JP, gy.qualname, "the four summary references point at this asset-year's sheet (unit price, end balances, net income)", f"summary references: { {c: show(v)[:120] if v else None for c, v in got.items()} }; expected ='<name of this asset-year's sheet>'.G<row+10>, .I<row+9>, .I<row+10>, .I<row+18>", loc(gy.node))
+    if not arith and not (opening[True] and opening[False]):
+        rep.violation(rc, JP, gy.qualname, "both the first sheet of an asset and a later one are handled", f"paths through the writer: with a previous sheet {opening[True]}, without {opening[False]}", loc(gy.node))
     if not (seen[True] and seen[False]):
         rep.violation(rd, JP, gy.qualname, "both the first-seen and the already-seen case of the yearly summary exist", f"paths through the tail: first-seen {seen[True]}, already-seen {seen[False]}", loc(gy.node))
 
